@@ -769,6 +769,126 @@ def concurrent_registration(run, rng, idx):
                                        'lost_or_duplicated': len(missing)})
 
 
+def directed_cases(run, rng, pv, idx):
+    """Two small conversations:
+    'refused-send'  - one send() of a packet written by the client is refused
+                      once with a transient error: however the library deals
+                      with that, every outgoing listener is called at most once
+                      for the packet, early ones exactly once;
+    'ignored-setcomp' - an early listener raises IgnorePacket for the server's
+                      Set Compression: the built-in reaction is skipped like
+                      any other (the server, told so by the test, carries on
+                      uncompressed) and the session works."""
+    import errno
+    import threading
+    from minecraft.exceptions import IgnorePacket
+    from minecraft.networking.packets import clientbound, serverbound
+    codec = codec_for(pv)
+    variant = ('refused-send', 'ignored-setcomp')[idx % 2]
+    state = {'chat': [], 'echo': None, 'done': threading.Event()}
+
+    def handler(io):
+        scripts.read_handshake(io)
+        if variant == 'ignored-setcomp':
+            io.recv_frame()                      # login start
+            cid, cp = codec.encode('set_compression', {'threshold': 64})
+            io.send_frame(cid, cp)               # ... and NOT switching
+            scripts.send_login_success(io, pv, codec)
+        else:
+            scripts.login_offline(io, pv, None, codec)
+        kid, kp = codec.encode('cb_keep_alive', {'id': 77})
+        io.send_frame(kid, kp)
+        try:
+            while True:
+                fr = io.recv_frame(4.0)
+                if fr is None:
+                    break
+                nm, vals = codec.decode('play', fr[0], fr[1])
+                if nm == 'sb_keep_alive':
+                    state['echo'] = vals['id']
+                elif nm == 'sb_chat':
+                    state['chat'].append(vals['message'])
+        except (mcserver.ScriptTimeout, EOFError):
+            pass
+        state['done'].set()
+    server = mcserver.Server(handler)
+    rec = pc.Recorder()
+    conn = pc.make_connection(server.port, rec, allowed_versions={pv})
+    calls = {'early_out': 0, 'out': 0}
+    w = {'pv': pv, 'variant': variant}
+    try:
+        if variant == 'ignored-setcomp':
+            def ignore(packet):
+                raise IgnorePacket
+            conn.register_packet_listener(
+                ignore, clientbound.login.SetCompressionPacket, early=True)
+        else:
+            def early_out(packet):
+                calls['early_out'] += 1
+
+            def late_out(packet):
+                calls['out'] += 1
+            conn.register_packet_listener(early_out, serverbound.play.
+                                          ChatPacket, outgoing=True, early=True)
+            conn.register_packet_listener(late_out, serverbound.play.
+                                          ChatPacket, outgoing=True)
+            fault = {'armed': False, 'done': False, 'skip': idx // 2 % 2,
+                     'errno': (errno.EINTR, errno.EAGAIN, errno.ENOBUFS)[
+                         idx // 4 % 3]}
+            w['send_refused'] = (errno.errorcode[fault['errno']],
+                                 'send %d of the packet' % (fault['skip'] + 1))
+
+            def send_fault(kind, proxy, data):
+                if kind == 'send' and fault['armed'] and not fault['done']:
+                    if fault['skip']:
+                        fault['skip'] -= 1
+                        return
+                    fault['done'] = True
+                    raise OSError(fault['errno'], 'injected transient error')
+            conn.vf_send_hook = send_fault
+        conn.connect()
+        if not pc.wait_for(lambda: state['echo'] is not None
+                           or state['done'].is_set(), 8.0):
+            pass
+        if variant == 'ignored-setcomp':
+            run.count('directed.ignored_set_compression')
+            if state['echo'] != 77 or rec.exceptions:
+                run.violation('listeners/ignored-reaction-still-applied',
+                              'an early listener raised IgnorePacket for Set '
+                              'Compression; the built-in reaction must be '
+                              'skipped, but the session with a server that '
+                              'stays uncompressed does not work',
+                              dict(w, keep_alive_echo=state['echo'],
+                                   exc=repr(rec.exceptions[:1])))
+            return None
+        p = serverbound.play.ChatPacket()
+        p.message = 'one packet'
+        fault['armed'] = True
+        forced = idx // 12 % 2 == 0
+        try:
+            conn.write_packet(p, force=forced)
+        except Exception as e:
+            w['write_packet_raised'] = repr(e)
+        pc.wait_for(lambda: calls['out'] or rec.exceptions
+                    or state['done'].is_set(), 3.0)
+        run.count('directed.refused_sends')
+        if not fault['done']:
+            return 'the refused send never happened'
+        if calls['early_out'] != 1 or calls['out'] > 1 or \
+                len(state['chat']) > 1:
+            run.violation('listeners/called-twice-after-refused-send',
+                          'one send() of a packet was refused once with a '
+                          'transient error; the packet\'s outgoing listeners '
+                          'were not called exactly once (early) / at most '
+                          'once, or the packet went out twice',
+                          dict(w, calls=calls, forced=forced,
+                               chat_seen_by_server=len(state['chat'])))
+        return None
+    finally:
+        pc.safe_disconnect(conn)
+        server.stop()
+
+
 def run(run):
     thorough = run.tier == 'thorough'
     run.level = 'exploration'
@@ -806,6 +926,14 @@ def run(run):
         if run.mine(i):
             concurrent_registration(run, rng, i)
             run.case(('concurrent-registration', i))
+    for i in range(96 if thorough else 24):
+        if not run.mine(i):
+            continue
+        err = directed_cases(run, rng, (757, 404, 340, 47)[i % 4] if i % 2
+                             else (757, 404, 340, 578)[i // 2 % 4], i)
+        run.case(('directed', i))
+        if err:
+            run.inconclusive_because('directed %d: %s' % (i, err))
     run.require('scenarios', 10)
     run.require('packets_dispatched', 100)
     run.require('listener_calls', 50)
